@@ -434,7 +434,7 @@ func monitorExportBody(o *c.Out, k *Case, request bool, s *XSide, exported strin
 		return hits, res.kept, res.hidden
 	}
 	h := hasherOf("md5")
-	m := &mon{k: &kc, sigs: map[string]bool{}, hash: func(t string) string { return h.HashBytes([]byte(t)) }}
+	m := &mon{k: &kc, doc: doc, sigs: map[string]bool{}, hash: func(t string) string { return h.HashBytes([]byte(t)) }}
 	for _, e := range k.Excl {
 		m.specs = append(m.specs, denotation(&kc, doc, e))
 	}
@@ -487,7 +487,11 @@ func (m *mon) exposedOnly(doc, out *Node) {
 				continue // the property text lists strings, numbers and booleans
 			}
 			if sameLeaf(in, o) && !m.hiddenOK(in, o) {
-				m.hit("exposed:other",
+				sig := "exposed:other"
+				if in.Kind == kStr && m.digestLike(in.S) {
+					sig = "exposed:digest-like-value"
+				}
+				m.hit(sig,
 					fmt.Sprintf("leaf %s = %s is not on or under a path denoted by any exclusion of %q: not exported in clear",
 						showPath(q), in.show(), m.k.Excl),
 					"exported verbatim: "+o.show())
